@@ -105,6 +105,7 @@ pub use types::{Key, MutInPlaceValue, TypeName, Value};
 #[cfg(redb_verif)]
 pub mod verif {
     pub use crate::db::{VerifAccounting, VerifRegionAccounting};
+    pub use crate::sync::verif::{SyncHooks, install_hooks, set_thread_controlled};
     pub use crate::tree_store::{VerifBuddyAllocator, VerifRegionTracker};
 }
 
